@@ -218,8 +218,15 @@ PayR(e) ==
                                !.neo = [[neo EXCEPT ![u] = @ - e.w] EXCEPT !["alph"] = @ + e.w]]
         [] OTHER -> FaultR                                                   \* FOREIGN, DIRECT
 
+\* Bind / Unbind(user, keys): notification only; e.w # 0: some key of the list is not 33 bytes long
+\* (the list itself - count, order, duplicates, empty - does not matter)
+BindR(e) ==
+  IF e.u \notin e.S \/ e.w # 0 THEN FaultR
+  ELSE [Keep EXCEPT !.ntf = <<Ntf(IF e.k = "unbind" THEN "Unbind" ELSE "Bind", e.u, Nil, Z, Nil)>>]
+
 ResultOf(e) ==
   CASE e.act = "deposit"   -> DepositR(e)
+    [] e.act = "bind"      -> BindR(e)
     [] e.act = "withdraw"  -> WithdrawR(e)
     [] e.act = "cheque"    -> ChequeR(e)
     [] e.act = "candAdd"   -> CandAddR(e)
@@ -260,6 +267,8 @@ NextOf(P(_), PS(_), Sg(_, _), PH(_)) ==
           Apply(Inv0("setFee", Sg(S, {kk}), Nil, Nil, a, 0, k, id, NoMint))
     \/ "alphaSame" \in Acts /\ \E id \in P(AlphaIds), kk \in PH(Voters) :
           Apply(Inv0("alphaSame", Sg(S, {kk}), Nil, Nil, Z, 0, Nil, id, NoMint))
+    \/ "bind" \in Acts /\ \E u \in P(Users), k \in P({"bind", "unbind"}), w \in P({0, 0, 0, 1}) :
+          Apply(Inv0("bind", Sg(S, {u}), u, Nil, Z, w, k, Nil, NoMint))
     \/ "designate" \in Acts /\ \E n \in P(1..Len(IRSeq)) : Apply(Inv0("designate", Sg(S, {"CMT"}), Nil, Nil, Z, n, Nil, Nil, NoMint))
     \/ "emit" \in Acts /\ \E m \in P(Mints) : Apply(Inv0("emit", Sg(S, {MemberName(AlphIdx)}), Nil, Nil, Z, 0, Nil, Nil, MintTo("alph", m)))
     \/ "pay" \in Acts /\ \E u \in P(Users), t \in P({"proc", "proxy", "alph"}), a \in P(Amounts), k \in P({"GAS", "FOREIGN", "DIRECT"}) :
